@@ -348,3 +348,39 @@ def result_kind(p):
     if p.kind == "return" and isinstance(p.ret, Agg) and p.ret.ty == "Result":
         return p.ret.variant
     return None
+
+
+def rust_struct_types(rel, name):
+    """{field: type text} of a struct."""
+    key = ("st", rel, name)
+    if key not in _LAYOUT:
+        src = _srcsym.strip_comments(common.read_repo(rel))
+        m = _re.search(r"\bstruct\s+%s\b[^{;]*\{" % _re.escape(name), src)
+        if not m:
+            raise Unsupported(f"struct {name} not found in {rel}")
+        i = m.end() - 1
+        j = _srcsym.match_close(src, i)
+        body = _re.sub(r"#\[[^\]]*\]", "", src[i + 1:j])
+        out = {}
+        for it in _srcsym.split_top(body):
+            fm = _re.match(r"^\s*(?:pub(?:\([^)]*\))?\s+)?(\w+)\s*:\s*(.*)$", it, _re.S)
+            if fm:
+                out[fm.group(1)] = fm.group(2).strip()
+        _LAYOUT[key] = out
+    return _LAYOUT[key]
+
+
+def sym_struct(rel, name, tag, overrides=None):
+    """Struct value with free fields of the right sort (bool -> Bool, integers -> BitVec, else opaque)."""
+    from mirsym import INT_W
+    vals = {}
+    for f, ty in rust_struct_types(rel, name).items():
+        if overrides and f in overrides:
+            vals[f] = overrides[f]
+        elif ty == "bool":
+            vals[f] = z3.Bool(f"{tag}.{f}")
+        elif ty in INT_W:
+            vals[f] = z3.BitVec(f"{tag}.{f}", INT_W[ty])
+        else:
+            vals[f] = opq(f"{tag}.{f}", ty)
+    return mk_struct(rel, name, vals), vals
